@@ -319,3 +319,29 @@ def emission_blocks(prog, fv, adt_rx, variant):
                     out.append(b)
                     out.extend(closure_flow_blocks(fv, b, s["p"]["l"]))
     return sorted(set(out))
+
+
+def captured_field_writes(fv, fld):
+    """In a closure body: (block, stmt idx, stmt) of writes through a captured `&mut self.<fld>` (edition-2021 closures capture
+    the field place itself: the write is `*_x = v` with `_x = copy (*_1).<upvar named ..__<fld>>`)."""
+    if fv.f.get("kind") != "closure":
+        return []
+    holders = set()
+    for bi in fv.live:
+        for s in fv.blocks[bi]["s"]:
+            rv = s.get("rv")
+            if rv and rv["r"] == "use" and not s["p"].get("p"):
+                q = rv["o"].get("c") or rv["o"].get("m")
+                if q and q["l"] == 1:
+                    for e in q.get("p") or []:
+                        if isinstance(e, dict) and (e.get("n") or "").endswith("__" + fld):
+                            holders.add(s["p"]["l"])
+    out = []
+    for bi in sorted(fv.live):
+        for si, s in enumerate(fv.blocks[bi]["s"]):
+            if "rv" in s and s["p"]["l"] in holders and s["p"].get("p") == ["*"]:
+                out.append((bi, si, s))
+            p = s.get("p", {})
+            if "rv" in s and p.get("l") == 1 and p.get("p") and p["p"][-1] == "*" and any(isinstance(e, dict) and (e.get("n") or "").endswith("__" + fld) for e in p["p"]):
+                out.append((bi, si, s))
+    return out
